@@ -162,7 +162,15 @@ def rule_pipeline(ctx):
             continue
         ctx.holds('R2', 'operation(): align -> align_dims -> func(o1.values, o2.values)')
         # R3: axes
-        appends = [e for e in p.calls('append') if e.loops]
+        from ..rules import alternatives
+
+        class _VE(object):           # an append event with one resolution of the conditional expressions of its argument
+            def __init__(self, e, arg, extra):
+                self.a = ('call', e.a[1], (arg,) + tuple(e.a[2][1:]), e.a[3])
+                self.guards = tuple(e.guards) + tuple(extra)
+                self.node = e.node
+                self.loops = e.loops
+        appends = [_VE(e, arg, extra) for e in p.calls('append') if e.loops and e.a[2] for arg, extra in alternatives(e.a[2][0])]
         ok = bool(appends)
         unguarded = {}
         for e in appends:
@@ -296,10 +304,24 @@ def rule_defaults(ctx):
                 g = [pol for x, pol in e.guards if x[0] == 'cmp' and x[1] == 'in' and x[2] == a]
                 if g == [False]:
                     good = True
+    seen_append = any(True for p in ret_paths(ev) for e in p.calls('append'))
+    # other spelling: list(dict.fromkeys(<ax.name for o in arrays for ax in o.axes>)) - insertion-ordered, each key once
+    for p in ret_paths(ev):
+        v = p.value
+        if v[0] == 'call' and T.dotted(v[1]) in ('list', 'tuple') and len(v[2]) == 1:
+            v = v[2][0]
+        if v[0] == 'call' and T.dotted(v[1]) in ('dict.fromkeys', 'OrderedDict.fromkeys', 'collections.OrderedDict.fromkeys') and len(v[2]) == 1:
+            g = v[2][0]
+            if g[0] == 'comp' and len(g[3]) == 2 and g[3][0][1] == ARR and not g[3][0][2] and not g[3][1][2]:
+                o = ('elem', ARR, g[3][0][0])
+                if g[3][1][1] == ('attr', o, 'axes') and g[2] == ('attr', ('elem', ('attr', o, 'axes'), g[3][1][0]), 'name'):
+                    good = True
     if good:
         ctx.holds('R5', 'get_dims: ordered union (first operand first, each name once)')
-    else:
+    elif seen_append:
         ctx.violated('R5', fi, 'get_dims', 'get_dims must collect dimension names in operand order, each once')
+    else:
+        ctx.undecide('R5', 'get_dims: neither the append loop guarded by `name not in dims` nor list(dict.fromkeys(names in operand order)) was recognised')
 
 
 def rule_numpy_scalar_left(ctx):
